@@ -2,3 +2,4 @@ pub mod bulkhead;
 pub mod ratelimiter;
 pub mod breaker_model;
 pub mod breaker_conc;
+pub mod retry;
